@@ -27,6 +27,8 @@ MUTANTS = [
     m("c09-no-invalidation", "C09", "R4", ST, "            for dep in self._dependencies[name]:\n                self._cache[dep] = None\n", ""),
     m("c09-pickle-key-renamed", "C09", "R5", ST, '            "cache": {k: v', '            "cached": {k: v'),
     m("c09-pickle-swap", "C09", "R5", ST, 'self.__dict__["_variables"] = state["variables"]\n        self.__dict__["_dependencies"] = state["dependencies"]', 'self.__dict__["_variables"] = state["dependencies"]\n        self.__dict__["_dependencies"] = state["variables"]'),
+    m("c09-pickle-deps-drop-invalidated", "C09", "R5", ST, '            "dependencies": self._dependencies,', '            "dependencies": {n: {k for k in d if self._cache.get(k) is not None} for n, d in self._dependencies.items()},'),
+    m("c09-twin-pickle-deps-only-cached", "C09", None, ST, '            "dependencies": self._dependencies,', '            "dependencies": {n: {k for k in d if k in self._cache} for n, d in self._dependencies.items()},', twin=True),
     m("c09-key-without-system-id", "C09", "R6", ST, '    return (f"{type(system).__name__}.{method}", id(system))', '    return f"{type(system).__name__}.{method}"'),
     m("c09-no-registration", "C09", "R6", ST, "            if key not in state._cache:\n                for dep in depends_on:\n                    state._dependencies[dep].add(key)\n            if key not in state._cache or state._cache[key] is None:", "            if key not in state._cache or state._cache[key] is None:"),
     m("c09-marker-not-recognised", "C09", "R6", ST, "            if key not in state._cache or state._cache[key] is None:\n                state._cache[key] = method(self, state)", "            if key not in state._cache:\n                state._cache[key] = method(self, state)"),
